@@ -853,6 +853,9 @@ SCENARIOS = {
                                ["commit"], ["copy", "g", "h"], ["set", "g/y", {"__bytes__": "61"}]],
     "marker-lookalike-values": [["set", "a", {"__np__": "uint8", "value": 127}], ["set", "b", {"__np__": "int8", "value": 127}], ["setattr", "/", "k", {"__np__": "uint8", "value": 127}], ["commit"],
                                 ["set", "g/c", {"__np__": "uint8", "value": 127}], ["del", "a"], ["commit"], ["set", "a", {"__np__": "uint8", "value": 127}]],
+    # moves between names one of which is a string prefix of the other (a -> ab is a rename, not a move into the own subtree)
+    "move-to-prefix-related-name": [["set", "a", 1], ["set", "g/run", 2], ["mkgrp", "data"], ["set", "data/x", 3], ["commit"], ["move", "a", "ab"], ["move", "g/run", "g/run_old"], ["move", "data", "data2"],
+                                    ["commit"], ["move", "ab", "a"], ["move", "data2", "dat"]],
     # many patches (reopen by name must find every container, also beyond .p9)
     "long-chain-12": _long_chain(12),
     # keys from the documented alphabet that are regular-expression metacharacters
